@@ -119,13 +119,13 @@ def hunkEntriesOf (s : Store) (b : Nat) (ns : List Nat) : List IndexEntry :=
   ns.flatMap fun n => (hunkAt s b n).getD []
 
 /-- Hashes named by the listed hunks of band `b`. -/
-def bandRefs (s : Store) (b : Nat) : List Str :=
+def bandRefHashes (s : Store) (b : Nat) : List Str :=
   (hunkEntriesOf s b (hunksListed s b)).flatMap fun e => e.addrs.map (·.hash)
 
 /-- What `referenced_blocks` returns on bands whose hunks all decode. -/
 def refsOf (s : Store) : List Nat → List Str
   | [] => []
-  | b :: bs => dedupStr (bandRefs s b ++ refsOf s bs)
+  | b :: bs => dedupStr (bandRefHashes s b ++ refsOf s bs)
 
 theorem mem_dedupStr {h : Str} {l : List Str} : h ∈ dedupStr l ↔ h ∈ l := by
   induction l with
@@ -144,7 +144,7 @@ theorem mem_dedupStr {h : Str} {l : List Str} : h ∈ dedupStr l ↔ h ∈ l := 
     · simp [ih]
 
 theorem mem_refsOf {s : Store} {h : Str} {bs : List Nat} :
-    h ∈ refsOf s bs ↔ ∃ b ∈ bs, h ∈ bandRefs s b := by
+    h ∈ refsOf s bs ↔ ∃ b ∈ bs, h ∈ bandRefHashes s b := by
   induction bs with
   | nil => simp [refsOf]
   | cons b bs ih => simp [refsOf, mem_dedupStr, ih]
@@ -525,8 +525,8 @@ theorem blockNamesFrom_lock (ps : List Str) :
 theorem blockNamesOf_lock : blockNamesOf (s ++ [(.gcLock, v)]) = blockNamesOf s := by
   simp only [blockNamesOf, blockSubdirsOf_lock, blockNamesFrom_lock]
 
-theorem bandRefs_lock (b : Nat) : bandRefs (s ++ [(.gcLock, v)]) b = bandRefs s b := by
-  simp only [bandRefs, hunkEntriesOf, hunksListed_lock, hunkAt_lock]
+theorem bandRefs_lock (b : Nat) : bandRefHashes (s ++ [(.gcLock, v)]) b = bandRefHashes s b := by
+  simp only [bandRefHashes, hunkEntriesOf, hunksListed_lock, hunkAt_lock]
 
 theorem refsOf_lock (bs : List Nat) : refsOf (s ++ [(.gcLock, v)]) bs = refsOf s bs := by
   induction bs with
@@ -692,13 +692,13 @@ theorem acquireOutcome_ok {s : Store} (hfree : s.get? .gcLock = none) (hnew : ne
   cases o.breakLock <;> simp [lockOutcome_ok hfree hnew]
 
 /-- Hypotheses of the functional-correctness theorem about the archive `s` and the set `D`. -/
-structure ArchOK (s : Store) (D : List Nat) : Prop where
+structure DelArchOK (s : Store) (D : List Nat) : Prop where
   nodup : UniqueKeys s
   root : s.get? .root = some .dir
   blockRoot : s.get? .blockRoot = some .dir
   kept : ∀ b ∈ keptOf s D, BandReadable s b
 
-theorem ArchOK.bodyOK {s : Store} {D : List Nat} (ok : ArchOK s D) (hfree : s.get? .gcLock = none) :
+theorem DelArchOK.bodyOK {s : Store} {D : List Nat} (ok : DelArchOK s D) (hfree : s.get? .gcLock = none) :
     BodyOK (s ++ [(.gcLock, .lock)]) D where
   nodup := uniqueKeys_lock ok.nodup hfree _
   root := by rw [get?_lock _ _ (by simp)]; exact ok.root
@@ -722,7 +722,7 @@ theorem lockTaken_free {s : Store} (hfree : s.get? .gcLock = none) (hnew : newes
 
 /-- Dry run: succeeds, reports the number of unreferenced blocks, and the final store is the very
 same list as the lock-free store `s0`. -/
-theorem deleteBands_dry_runs_gen {s s0 : Store} {D : List Nat} (ok : ArchOK s0 D)
+theorem deleteBands_dry_runs_gen {s s0 : Store} {D : List Nat} (ok : DelArchOK s0 D)
     (hroot : s.get? .root = some .dir) (hfree : s0.get? .gcLock = none)
     (o : DeleteOpts) (hacq : LockTaken o s s0) (hdry : o.dryRun = true) :
     ∀ w : World, w.Quiet → w.store = s → Runs (deleteBands true D o) w (.ok (dryStats s0 D)) s0 [] := by
@@ -737,13 +737,13 @@ theorem deleteBands_dry_runs_gen {s s0 : Store} {D : List Nat} (ok : ArchOK s0 D
   · simp [dryStats, unrefOf_lock]
   · rw [← put_lock_eq hfree, Store.erase_put_absent _ _ _ hfree]
 
-theorem deleteBands_dry_runs {s : Store} {D : List Nat} (ok : ArchOK s D) (hfree : s.get? .gcLock = none)
+theorem deleteBands_dry_runs {s : Store} {D : List Nat} (ok : DelArchOK s D) (hfree : s.get? .gcLock = none)
     (hnew : newestComplete s) (o : DeleteOpts) (hdry : o.dryRun = true) :
     ∀ w : World, w.Quiet → w.store = s → Runs (deleteBands true D o) w (.ok (dryStats s D)) s [] :=
   deleteBands_dry_runs_gen ok ok.root hfree o (lockTaken_free hfree hnew o) hdry
 
 /-- Real run: succeeds with the expected statistics; the final store is `deleted s0 D`. -/
-theorem deleteBands_real_runs_gen {s s0 : Store} {D : List Nat} (ok : ArchOK s0 D)
+theorem deleteBands_real_runs_gen {s s0 : Store} {D : List Nat} (ok : DelArchOK s0 D)
     (hroot : s.get? .root = some .dir) (hfree : s0.get? .gcLock = none)
     (o : DeleteOpts) (hacq : LockTaken o s s0) (hdry : o.dryRun = false) (hnd : D.Nodup)
     (hex : ∀ b ∈ D, (s0.get? (.bandDir b)).isSome = true) :
@@ -762,7 +762,7 @@ theorem deleteBands_real_runs_gen {s s0 : Store} {D : List Nat} (ok : ArchOK s0 
   refine this.congr ?_ (afterDelete_lock hfree D _) rfl
   simp [realStats, unrefOf_lock]
 
-theorem deleteBands_real_runs {s : Store} {D : List Nat} (ok : ArchOK s D) (hfree : s.get? .gcLock = none)
+theorem deleteBands_real_runs {s : Store} {D : List Nat} (ok : DelArchOK s D) (hfree : s.get? .gcLock = none)
     (hnew : newestComplete s) (o : DeleteOpts) (hdry : o.dryRun = false) (hnd : D.Nodup)
     (hex : ∀ b ∈ D, (s.get? (.bandDir b)).isSome = true) :
     ∀ w : World, w.Quiet → w.store = s →
